@@ -606,6 +606,38 @@ def r129(ctx, fx):
     ctx.inst(rid, "join_chunks|scan", sample={"replacements_of_line_by_a_part": n_sites})
 
 
+def r1211(ctx, fx):
+    rid = ctx.rule("R12.11", "a line break is only swallowed because of what is on the line: in join_chunks every assignment `ignore = true` is control-dependent on conditions over the "
+                   "chunk's text, the line built so far (its length, its emptiness) and the options — not on a flag that one chunk sets and another is supposed to clear. "
+                   "A flag that the comment branch forgets to clear swallows the line break behind a `//` comment, and the next statement becomes part of the comment")
+    from .c11 import _anc_walk
+    jc = fx.fn("mos_core::formatting::join_chunks")
+    if jc is None or not jc.d.get("hir"):
+        ctx.fail_closed(rid, "formatting::join_chunks not found")
+        return
+    body = jc.hir["body"]
+    OKNAMES = {"str", "line", "options", "idx", "chunk", "chunks", "num_chunks"}
+    n = 0
+    for x, anc in _anc_walk(body):
+        if not (x.get("k") == "assign" and lib.hpath(x["l"]) == "ignore" and lib.hlit(lib.strip(x["r"])) is True):
+            continue
+        n += 1
+        names = set()
+        for p_, key in anc:
+            if p_.get("k") == "if" and key == "then":
+                names |= {lib.hpath(y) for y in lib.hwalk(p_["cond"]) if y.get("k") == "path" and (y.get("res") or {}).get("dk", "Local") in ("Local", None)}
+        names = {nm for nm in names if nm and "::" not in nm}
+        extra = sorted(names - OKNAMES)
+        key = "join_chunks|line-break-dropped#%d" % n
+        ctx.inst(rid, key, sample={"line": x.get("ln"), "depends_on": sorted(names)})
+        if extra:
+            ctx.finding(rid, key, "join_chunks drops a line break depending on `%s`, which is carried from chunk to chunk: where a branch does not bring it up to date (a `//` "
+                        "comment behind a label that is wider than its column), the line break behind the comment is swallowed and the next statement is commented out" %
+                        "`, `".join(extra), "%s:%s" % (jc.file, x.get("ln")))
+    if n < 1:
+        ctx.fail_closed(rid, "join_chunks no longer has an `ignore = true`")
+
+
 def r1210(ctx, fx):
     rid = ctx.rule("R12.10", "`mos format` rewrites each file with exactly the formatted text: a file opened for writing through OpenOptions is truncated (`truncate(true)`), "
                    "created anew or appended to on purpose — opened with `write(true)` alone, a text that is shorter than the old one leaves the old one's tail behind it")
@@ -648,6 +680,7 @@ def r1210(ctx, fx):
 def run(ctx):
     fx = ctx.facts
     r1210(ctx, fx)
+    r1211(ctx, fx)
     r125(ctx, fx)
     r126(ctx, fx)
     r127(ctx, fx)
